@@ -62,6 +62,19 @@ class Plain(Enum):
     Y = "y"
 
 
+class Perm(enum.Flag):
+    """composite values (Perm(6) == R|W) are members although they are not listed"""
+    R = 4
+    W = 2
+    X = 1
+
+
+class ListE(Enum):
+    """members with unhashable values"""
+    P = [0]
+    Q = [1, 2]
+
+
 class MyInt(int):
     pass
 
